@@ -150,6 +150,14 @@ func (e *Engine) VerifyFunc(fn *ssa.Function, spec *FuncSpec) (res *FuncResult) 
 				ord = i
 			}
 			g := ctx.evalBool(en.E)
+			if en.Except != nil {
+				// known finding: the clause is claimed outside the recorded region; inside it a probe
+				// obligation (expected to fail) keeps the finding visible.
+				ex := (&specCtx{e: e, st: s, env: penv, heaps: s.old, oldHeaps: s.old, pkg: fn.Pkg}).evalBool(en.Except)
+				e.obligeNoAssume(s, "post", lbl, ord, Implies(Not(ex), g), en.Text+"   [outside known finding "+en.Tag+"]")
+				e.obligeNoAssume(s, "post", lbl+"!"+en.Tag, ord, Implies(ex, g), en.Text+"   [inside known finding "+en.Tag+"]")
+				continue
+			}
 			e.obligeNoAssume(s, "post", lbl, ord, g, en.Text)
 		}
 		for _, ob := range e.obs[nb:] {
